@@ -36,7 +36,7 @@ ASSUMPTIONS = [
     "the two pad bytes of the undocumented AT5 outer header are not 'covered bytes' and are not corrupted",
     "the exhaustive 1..2-byte comparison of calculate() is a plain function comparison, not simulation; the 3-byte enumeration and the induction on length of the property text are not reproduced",
 ]
-PROBES = ["c06.single_bit", "c06.double_bit", "c06.burst", "c06.check_bytes_only", "c06.after_intact_original", "c06.special_register_frame", "c06.intact_special_register", "c06.prefix_valued_address", "c06.prefix_like_payload", "c06.in_prefix", "c06.in_length", "c06.in_crc", "c06.in_payload", "c06.waited_for_bytes", "c06.function_audit"]
+PROBES = ["c06.single_bit", "c06.double_bit", "c06.burst", "c06.check_bytes_only", "c06.after_intact_original", "c06.special_register_frame", "c06.intact_special_register", "c06.prefix_valued_address", "c06.prefix_like_payload", "c06.long_frame", "c06.in_prefix", "c06.in_length", "c06.in_crc", "c06.in_payload", "c06.waited_for_bytes", "c06.function_audit"]
 EXHAUSTIVE = True
 TRUSTED_BASE = ["ref/crc.py (bitwise CRC-16/MODBUS)", "ref/wire4.py, ref/wire5.py (framing)"]
 
@@ -188,6 +188,16 @@ def enumerated(tier: str):
                 yield _scenario(gen, "unknown:" + name, fr, [b], "single", with_neighbours=(b % 4 == 0))
             for pname, bits in _check_byte_patterns(fr, random.Random(99), exhaustive=False):
                 yield _scenario(gen, "unknown:" + name, fr, bits, "checkbytes", with_neighbours=False)
+        # long frames (payload 1019 / 1500 / 2600 bytes): a spread of single flips, the check bytes, flips next to the ends
+        for size in ((1500,) if tier == "quick" else (1019, 1500, 2600)):
+            fr = framegen.long_frame(random.Random(size + gen), gen, pid=0x22, size=size)[0]
+            pos = _positions(gen, len(fr))
+            step = max(1, len(pos) // (48 if tier == "quick" else 400))
+            for b in sorted(set(pos[::step]) | set(pos[:8]) | set(pos[-24:])):
+                yield _scenario(gen, "long:%d" % size, fr, [b], "single", with_neighbours=(b % 2 == 0))
+            for pname, bits in _check_byte_patterns(fr, random.Random(size), exhaustive=False):
+                yield _scenario(gen, "long:%d" % size, fr, bits, "checkbytes", with_neighbours=False)
+            yield _scenario(gen, "long:%d" % size, fr, [], "intact", with_neighbours=True)
         samples = _samples(gen)
         for i, (kind, fr) in enumerate(samples):
             # the check bytes alone: order, single byte, constants (every sample), every 16-bit pattern (thorough, one sample)
@@ -228,6 +238,11 @@ def enumerated(tier: str):
 def generate(rng, index: int, tier: str) -> dict:
     gen = rng.choice([4, 5])
     fr, kind = framegen.frame(rng, gen)
+    if rng.random() < 0.06:
+        # far longer than everyday traffic (16-bit length field); <= 2600 bytes keeps every double-bit pattern inside the
+        # span for which CRC-16 guarantees detection (32767 bits)
+        fr, kind = framegen.long_frame(rng, gen, size=rng.choice([s for s in framegen.LONG_SIZES if s <= 2600]))
+        kind = "long:" + kind
     pos = _positions(gen, len(fr))
     pattern = rng.choice(["single", "double", "double", "burst", "burst", "checkbytes"])
     if pattern == "checkbytes":
@@ -318,6 +333,8 @@ def execute(sc: dict) -> dict:
         probes["c06.prefix_valued_address"] = 1
     if str(info.get("kind", "")).startswith("unknown:pre"):
         probes["c06.prefix_like_payload"] = 1
+    if str(info.get("kind", "")).startswith("long:") and info.get("frame_len", 0) > 1040:
+        probes["c06.long_frame"] = 1
     hl = 8 if gen == 4 else 20
     pre = 2 if gen == 4 else 14
     for b in info.get("bits", []):
